@@ -627,11 +627,16 @@ def package_equivalent(repo, ref):
             if ast.dump(cf[name]) == ast.dump(rf[name]):
                 n_same += 1
                 continue
+            # cheap necessary condition first: a first-order edit that is not the identity cannot be equivalent unless the summaries say so;
+            # the summaries of large functions cost seconds, so stop at the first function that is not equivalent
             ok, why = functions_equivalent(cf[name], rf[name])
             if ok:
                 n_equiv.append("%s.%s (%s)" % (short, name, why))
             else:
                 reasons.append("%s.%s: %s" % (short, name, why))
+                return False, reasons, {"identical": n_same, "equivalent": n_equiv}
+        if reasons:
+            return False, reasons, {"identical": n_same, "equivalent": n_equiv}
     return (not reasons), reasons, {"identical": n_same, "equivalent": n_equiv}
 
 
